@@ -18,7 +18,7 @@ LEVEL_TEXT["C08"] = (
 )
 
 PROPS["C08"] = {
-    "gen": ["Cmplx", "StepsBase", "StepsArray", "StepsResample"],
+    "gen": ["Cmplx", "StepsBase", "StepsArray", "StepsResample", "CtorResample"],
     "lean_props": ["DspVerif.Props.C08", "DspVerif.Props.C08Gen"],
     "harness": [
         {"src": "c08.cpp", "cfg": "rel", "tol": {"*": (1e-12, 0.0)}},
